@@ -47,6 +47,9 @@ def setup_logging(verbose: bool = False) -> None:
     )
 
 
+DEEP_SOURCE_RECURSION_LIMIT = 100_000
+
+
 @click.group()
 @click.version_option(version=__version__)
 @click.option("--verbose", "-v", is_flag=True, help="Enable verbose output")
@@ -91,6 +94,11 @@ def cli(ctx: click.Context, verbose: bool, config: str | None, project_root: str
     """
     # Ensure context object exists
     ctx.ensure_object(dict)
+
+    # The analyzers walk syntax trees recursively; generated or minified sources nest far deeper
+    # than the interpreter's default limit of 1000 frames allows, and a rule that runs out of
+    # frames is abandoned for that file. (Worker processes of --parallel are forked from here.)
+    sys.setrecursionlimit(max(sys.getrecursionlimit(), DEEP_SOURCE_RECURSION_LIMIT))
 
     # Setup logging
     setup_logging(verbose)
